@@ -12,6 +12,10 @@ MANIFEST = {
 }
 
 
+def LEN(name):
+    return name.endswith("#ensures:length") or "#requires:" in name
+
+
 def FRAME(name):
     """only the frame (assigns) obligations of the clock functions belong to this property; their functional clauses are C19-C21"""
     return "#assigns:" in name or "#requires:" in name
@@ -24,6 +28,10 @@ def tasks(ctx):
                          # wave RAM keeps its contents except through FF30-FF3F writes and the documented retrigger corruption
                          Task("(*audio.wave).trigger", "(*audio.wave).trigger", keep=lambda n: n.endswith("#ensures:keep") or "#assigns:" in n),
                          Task(ac.A + "tickClock", ac.A + "tickClock", overrides=ac.OV, keep=FRAME),
+                         # "while off, writes other than to NR52 and the length registers are ignored": the length registers are not -
+                         # they load the counter whether sound is on or off
+                         Task(ac.A + "WriteNR11", ac.A + "WriteNR11", overrides=ac.OV, keep=LEN), Task(ac.A + "WriteNR21", ac.A + "WriteNR21", overrides=ac.OV, keep=LEN),
+                         Task(ac.A + "WriteNR31", ac.A + "WriteNR31", overrides=ac.OV, keep=LEN), Task(ac.A + "WriteNR41", ac.A + "WriteNR41", overrides=ac.OV, keep=LEN),
                          Task(ac.A + "tickFrameSequencer", ac.A + "tickFrameSequencer", overrides=ac.OV, keep=FRAME)])
 
 
